@@ -696,7 +696,7 @@ def budget(tier):
     if tier == 'quick':
         return {'runs': 2400, 'wall': 70, 'chunk': 6, 'selftest': 6,
                 'minimise_s': 90, 'canary_runs': 1500, 'canary_wall': 90}
-    return {'runs': 40000, 'wall': 1200, 'chunk': 8, 'selftest': 16,
+    return {'runs': 40000, 'wall': 900, 'chunk': 8, 'selftest': 16,
             'minimise_s': 240, 'canary_runs': 1500, 'canary_wall': 90}
 
 
